@@ -4,8 +4,8 @@ of the reference module that contains only the public declarations with their bo
 import time
 from . import replayrun
 
-KINDS = ['fn_body', 'fn_head', 'const', 'struct', 'extern_fn_body', 'opaque', 'extern_fn_head', 'word']
-NO_BODY = ['fn_head', 'const', 'struct', 'opaque', 'extern_fn_head', 'word']
+KINDS = ['fn_body', 'fn_head', 'const', 'struct', 'extern_fn_body', 'opaque', 'extern_fn_head', 'word', 'import']
+NO_BODY = ['fn_head', 'const', 'struct', 'opaque', 'extern_fn_head', 'word', 'import']
 
 
 def decl(kind, name, pub):
@@ -16,6 +16,9 @@ def decl(kind, name, pub):
     elif kind == 'extern_fn_body':
         full = '%sextern fn %s(a: i32) -> i32\n{\n\tvar y = a * a;\n\treturn: y\n}\n' % (p, name)
         head = 'pub extern fn %s(a: i32) -> i32;\n' % name
+    elif kind == 'import':
+        full = '%simport "lib/%s.pn";\n' % (p, name)
+        head = 'pub import "lib/%s.pn";\n' % name
     elif kind == 'fn_head':
         full = '%sfn %s(a: []u8);\n' % (p, name)
         head = 'pub fn %s(a: []u8);\n' % name
